@@ -18,8 +18,9 @@ import (
 )
 
 type lockReq struct {
-	m     *sim.LockState
-	write bool
+	m       *sim.LockState
+	write   bool
+	arrival int // order in which requests were made (writer preference is by arrival)
 }
 
 type task struct {
@@ -56,6 +57,7 @@ type Sched struct {
 	maxSteps int
 	clock    int64
 	nextLock int
+	arrivals int
 	aborted  bool
 	Err      string // "deadlock" | "step-budget" | "replay-divergence"
 	ErrWhat  string
@@ -107,11 +109,18 @@ func (s *Sched) park(req *lockReq, site string) {
 	}
 	t := s.current()
 	s.mu.Lock()
+	if req != nil {
+		s.arrivals++
+		req.arrival = s.arrivals
+	}
 	t.req, t.site, t.parked = req, site, true
 	s.mu.Unlock()
 	<-t.resume
 }
 
+// grantable models Go's sync.RWMutex: a writer needs the lock free; a reader needs no writer
+// holding it AND no writer that asked for it earlier still waiting (a blocked Lock call excludes
+// new readers - which is what makes recursive read locking deadlock).
 func (s *Sched) grantable(r *lockReq) bool {
 	if r == nil {
 		return true
@@ -119,7 +128,15 @@ func (s *Sched) grantable(r *lockReq) bool {
 	if r.write {
 		return !r.m.Writer && r.m.Readers == 0
 	}
-	return !r.m.Writer
+	if r.m.Writer {
+		return false
+	}
+	for _, o := range s.tasks {
+		if o.parked && o.req != nil && o.req != r && o.req.m == r.m && o.req.write && o.req.arrival < r.arrival {
+			return false
+		}
+	}
+	return true
 }
 
 // sim.Scheduler
@@ -133,7 +150,7 @@ func (s *Sched) Acquire(m *sim.LockState, write bool, site string) {
 		m.ID = s.nextLock
 	}
 	s.mu.Unlock()
-	s.park(&lockReq{m, write}, site)
+	s.park(&lockReq{m: m, write: write}, site)
 }
 
 func (s *Sched) Release(m *sim.LockState, write bool, site string) {
